@@ -2,16 +2,19 @@ package internal_planner
 
 import (
 	"github.com/go-faster/city"
+	"github.com/metrico/qryn/writer/utils/heputils/cityhash102"
 	"unsafe"
 )
 
 func fingerprint(labels map[string]string) uint64 {
 	descr := [3]uint64{0, 0, 1}
 	for k, v := range labels {
-		a := k + v
-		descr[0] += city.CH64([]byte(a))
-		descr[1] ^= city.CH64([]byte(a))
-		descr[2] *= 1779033703 + 2*city.CH64([]byte(a))
+		// key and value are hashed separately (as the writer's fingerprintLabels does): hashing k+v made
+		// {a:"bc"} and {ab:"c"} the same series
+		a := cityhash102.Hash128to64(cityhash102.Uint128{city.CH64([]byte(k)), city.CH64([]byte(v))})
+		descr[0] += a
+		descr[1] ^= a
+		descr[2] *= 1779033703 + 2*a
 
 	}
 	return city.CH64(unsafe.Slice((*byte)(unsafe.Pointer(&descr[0])), 24))
